@@ -80,7 +80,7 @@ Lemma node_reach_good r o sp n w g hh lc :
   forall a, 0 <= a < 2 ^ wb_maw n ->
   forall id off, node_reach hh a = Some (id, off) <-> reports lc a id off.
 Proof.
-  intros (_ & _ & _ & _ & Hc) Hm Hh Hl a Ha id off. cbn [snd] in Hc.
+  intros (_ & _ & Hc) Hm Hh Hl a Ha id off. cbn [snd] in Hc.
   destruct n as [id0 size dw gran wr init|dw nm c]; cbn [wb_maw] in Ha.
   - destruct (sram_hw_spec _ _ _ _ _ _ _ _ Hh) as (ge & rows0 & gb & -> & _ & _ & _ & Hp & Es & _).
     assert (Hsz : 1 <= size) by (rewrite Es; pose proof (pow2_pos (Z.log2 size)); lia).
@@ -206,30 +206,30 @@ Proof.
   destruct (sub_window _ _ _ _ _ _ _ _ _ _ _ Hdom Hm S) as (Hin & Hww & Haw & Hs0 & Hlen & Hst).
   pose proof (si_dom _ _ _ _ _ _ _ _ _ _ _ S) as Hd. pose proof (si_map _ _ _ _ _ _ _ _ _ _ _ S) as Hmw.
   pose proof (si_hw _ _ _ _ _ _ _ _ _ _ _ S) as Hhw.
-  destruct (sub_geom r o sp n w g hh Hd Hmw Hhw) as (Hgb & Hpos & Hq & Ga & Gd & Gg).
+  destruct (sub_geom r o sp n w g hh Hd Hmw Hhw) as (Hgb & Hpos & Hq & Ga & Gdg).
   pose proof (si_al _ _ _ _ _ _ _ _ _ _ _ S) as Hal. rewrite Haw in Hal.
   unfold wreach. cbv zeta. rewrite (cfg_gbits r m h Hm Hh), Hsel.
   rewrite (si_cfg _ _ _ _ _ _ _ _ _ _ _ S), (si_hh _ _ _ _ _ _ _ _ _ _ _ S).
   unfold WbDecoder.s_aw, WbDecoder.s_dw, WbDecoder.s_g.
   cbn [WbDecoder.s_geom WbDecoder.s_win WbDecoder.w_ratio].
   rewrite (si_step _ _ _ _ _ _ _ _ _ _ _ S). change (Z.log2 1) with 0. rewrite Z.shiftl_0_r.
-  rewrite Ga, Gd, Gg, Hq.
+  rewrite Ga, Gdg.
   set (gb := wbroot_gbits r) in *.
   assert (HG : 0 < 2 ^ gb) by (apply Z.pow_pos_nonneg; lia).
   pose proof (Z.mod_pos_bound ga (2 ^ gb) HG) as Hlane.
   destruct (Z.ltb_spec (ga mod 2 ^ gb) (2 ^ gb)) as [_|]; [|lia].
   pose proof (win_offset ga (w_start wn) gb (wb_maw n) Hgb Hal Hr) as Hoff.
-  destruct Hd as (_ & Hdw & Hgr & _ & Hc). cbn [fst snd] in *.
+  destruct Hd as (_ & _ & Hc). cbn [fst snd] in *.
   destruct n as [id0 size dw gran wr init|dw nm c]; cbn [wb_maw wb_ndw wb_ngran] in *.
   - destruct (sram_hw_spec _ _ _ _ _ _ _ _ Hhw) as (ge & rows0 & gb' & -> & G0 & Gq & _ & _ & _ & _ & _ & _ & Gaw & Gn).
     assert (gb' = gb).
-    { apply (Z.pow_inj_r 2); [lia|lia|lia|]. rewrite <- Gq, <- Hq. congruence. }
+    { apply (Z.pow_inj_r 2); [lia|lia|lia|]. rewrite <- Gq, <- Hq. reflexivity. }
     subst gb'. cbn [node_reach]. rewrite Gaw, Gn.
     rewrite trunc_idem by lia. rewrite Hoff. reflexivity.
   - destruct (bridge_map_spec _ _ _ _ Hc Hmw) as (wc & wnb & _ & _ & _ & _ & Hcpos & _).
     destruct (bridge_hw_spec _ _ _ _ _ Hcpos Hhw) as (bc & ch & gb' & -> & _ & G0 & Gq & _ & _ & _ & _ & Gr & Gcaw).
     assert (Egb : gb' = gb).
-    { apply (Z.pow_inj_r 2); [lia|lia|lia|]. rewrite <- Gq, <- Hq. congruence. }
+    { apply (Z.pow_inj_r 2); [lia|lia|lia|]. rewrite <- Gq, <- Hq. reflexivity. }
     rewrite Egb in Gr. cbn [node_reach]. rewrite Gr, Gcaw.
     rewrite (trunc_small gb (ga mod 2 ^ gb)) by lia.
     rewrite Z.add_comm, Hoff. rewrite trunc_small by lia. reflexivity.
